@@ -682,4 +682,5 @@ func TestVerif_C09(t *testing.T) {
 		t.Errorf("the reference walker does not report %v of a working set chunk: %s", missing, detail)
 	})
 	vh.Check(t, "walker", 3000, 1200, func(rt *rapid.T) { c09Case(rt, rec, open) })
+	c09NodesTest(t)
 }
